@@ -104,6 +104,8 @@ class Interp(object):
         self.cx = cx
         self.fn = {q: Fn(cx, 'io.FCSData.' + q) for q in ('__getitem__', '__setitem__', '_name_to_index')}
         self.trace = []
+        from .fcsdata_rules import key_names
+        self.kc = {q: key_names(cx, self.fn[q])[0] for q in ('__getitem__', '__setitem__')}
 
     # -- three valued tests ---------------------------------------------------
     def truth(self, e, env):
@@ -506,7 +508,7 @@ def classify(cx, itp, res, colkind, colval, evval):
     stores = res['stores']
     val = res['value']
     # which key reached ndarray.__getitem__ ?
-    kc = env.get('key_channel')
+    kc = env.get(itp.kc['__getitem__'])
     if val.kind == 'scalar' and not stores:
         # single value returned before any attribute store
         if kc is not None and kc.kind in ('int', 'npint'):
@@ -530,7 +532,7 @@ def classify(cx, itp, res, colkind, colval, evval):
     txt = sym.norm(first.value)
     attr = first.targets[0].attr
     base = first.targets[0].value.id
-    kcn = 'key_channel'
+    kcn = itp.kc['__getitem__']
     forms = {
         'iter': sym.norm('tuple([%s.%s[kc] for kc in %s])' % (base, attr, kcn)),
         'slice': sym.norm('%s.%s[%s]' % (base, attr, kcn)),
@@ -641,8 +643,8 @@ def setitem_agreement(cx, itp, rule='KINDS'):
             ok = g['outcome'] == s['outcome'] and g.get('etype') == s.get('etype')
             d = 'get: %s %s, set: %s %s' % (g['outcome'], g.get('etype', ''), s['outcome'], s.get('etype', ''))
         else:
-            gk = g['env'].get('key_channel')
-            sk = s['env'].get('key_channel')
+            gk = g['env'].get(itp.kc['__getitem__'])
+            sk = s['env'].get(itp.kc['__setitem__'])
             ok = repr(gk) == repr(sk)
             d = 'get translates to %s, set to %s' % (gk, sk)
         n += 1
